@@ -48,6 +48,25 @@ Theorem C13_update_is_override (k1 k2 : kwargs V) (k : String.string) :
 Proof. exact (kw_get_update V k2 k1 k). Qed.
 End Partial.
 
+(* a Generator object stored as [seed] by a partial application (a mutable keyword value).  With the deep copy made by
+   every call: after any history of calls and derived partials, an existing partial still draws from the position its
+   generator had at the beginning, and the generator it stores — for the first partial, the caller's own object — has not
+   moved.  So repeated calls of the original are equal and derived partials do not alter it. *)
+Theorem C13_partial_generator_not_shared (ops : list gop) (g : gstate) (r : nat) :
+  r < length (g_partials g) -> nth r (g_partials g) 0 < length (g_store g) ->
+  let g' := fst (grun true g ops) in
+  snd (gstep true g' (GCall r)) = snd (gstep true g (GCall r)) /\
+  nth (nth r (g_partials g') 0) (g_store g') 0 = nth (nth r (g_partials g) 0) (g_store g) 0.
+Proof. exact (gen_deep_pure ops g r). Qed.
+
+(* the shallow variant (copy.copy(self) and a fresh dict) is refuted: base(shape); child = base(k=v); child(shape);
+   base(shape) draws the third matrix from position 2 instead of 0, and the caller's Generator has moved to 3 *)
+Theorem C13_shallow_copy_refuted :
+  exists ops : list gop,
+    snd (grun false g0 ops) = [Some 0; None; Some 1; Some 2] /\ g_store (fst (grun false g0 ops)) = [3] /\
+    snd (grun true g0 ops) = [Some 0; None; Some 0; Some 0] /\ nth 0 (g_store (fst (grun true g0 ops))) 9 = 0.
+Proof. exists [GCall 0; GPartial 0; GCall 1; GCall 0]. vm_compute. repeat split. Qed.
+
 (* ------------------------------------------------------------------ spectral radius request *)
 Section SpectralRadius.
 Variable rho : list (list R) -> R.     (* spectral radius: oracle (ARPACK / LAPACK) *)
@@ -184,6 +203,8 @@ Print Assumptions C13_partial_application_pure.
 Print Assumptions C13_partial_application_later_calls.
 Print Assumptions C13_partial_application_composes.
 Print Assumptions C13_update_is_override.
+Print Assumptions C13_partial_generator_not_shared.
+Print Assumptions C13_shallow_copy_refuted.
 Print Assumptions C13_sr_scaling.
 Print Assumptions C13_sr_null_not_blown_up.
 Print Assumptions C13_sr_prefix_epsilon.
